@@ -171,6 +171,13 @@ impl PidTracking {
         ]);
         let max_slots = u32::from_le_bytes([data[24], data[25], data[26], data[27]]);
 
+        // max_slots is written by other processes and is not trusted. Slots that
+        // lie outside the mapped region can be neither read nor written back, so
+        // cap the count at what the region holds (4-byte PID + 4-byte mode per
+        // slot) before it sizes the tables.
+        let region_slots = (data.len() - PID_TRACKING_HEADER_SIZE) / 8;
+        let max_slots = max_slots.min(u32::try_from(region_slots).unwrap_or(u32::MAX));
+
         let slot_count = max_slots as usize;
         let pids_start = PID_TRACKING_HEADER_SIZE;
         let modes_start = pids_start + slot_count * 4;
@@ -819,6 +826,22 @@ mod tests {
 
         buf[0] = 6; // Invalid version
         assert!(ShmemControlBlock::from_mapped(&buf).is_none());
+    }
+
+    #[test]
+    fn test_pid_tracking_max_slots_beyond_region() {
+        // max_slots = u32::MAX in a region with room for 4 slots: the count is
+        // capped instead of sizing two 16 GiB tables.
+        let mut buf = vec![0u8; PID_TRACKING_HEADER_SIZE + 4 * 4 * 2];
+        buf[0] = 1; // state: idle
+        buf[24..28].copy_from_slice(&u32::MAX.to_le_bytes());
+
+        let mut loaded = PidTracking::from_mapped(&buf);
+        assert_eq!(loaded.max_slots, 4);
+        assert_eq!(loaded.pids.len(), 4);
+        assert_eq!(loaded.modes.len(), 4);
+        loaded.recount();
+        assert_eq!(loaded.add_process(100, 5), Some(0));
     }
 
     #[test]
